@@ -181,7 +181,7 @@ func TestMutatedCorpus(t *testing.T) {
 	const test = "MutatedCorpus"
 	hx.Rule(test, "a valid base module (repository testdata <= 24 KB, llvm-stress output, harvested fuzz corpus, own generator with debug info) x 1..3 drawn text mutations (keyword exchanged inside its class: linkage, visibility, calling convention, flags, predicates, orderings, attributes, opcodes of one family, types; optional flag inserted or dropped; integer operand replaced by a boundary value; identifier quoted; comment appended; line deleted; top-level definition moved; top-level line spliced in from another module; metadata attachment duplicated under another kind). Gate: llvm-as-14 accepts the mutated text and the parser accepts it (a parse error on external text is 'rejected', not judged). Oracle: C01 LLVM differential, then C02 fixpoint. Failing inputs are minimised by line-based delta debugging. Non-trivial = the mutated text differs from the base, is LLVM-valid and accepted; distinct by text digest")
 	var bases []string
-	for _, f := range corpus.RepoTestdata() {
+	for _, f := range corpus.Fixed() {
 		if len(f.Text) <= 24<<10 {
 			bases = append(bases, f.Text)
 		}
